@@ -34,6 +34,7 @@ pub trait DynMap {
     fn sync_all(&mut self) -> io::Result<()>;
     fn sync_data(&mut self) -> io::Result<()>;
     fn read_fill_buffer(&mut self) -> io::Result<()>;
+    fn bulk_put(&mut self, pairs: &[(&[u8], &[u8])]) -> io::Result<()>;
     fn clone_box(&self) -> Box<dyn DynMap>;
     fn items(&mut self) -> Vec<(Vec<u8>, Vec<u8>)>;
     fn partial_iter(&mut self, steps: usize) -> Box<dyn std::any::Any>;
@@ -69,6 +70,9 @@ impl<T: Kt> DynMap for FileDbMap<T> {
     }
     fn read_fill_buffer(&mut self) -> io::Result<()> {
         DbXxxBase::read_fill_buffer(self)
+    }
+    fn bulk_put(&mut self, pairs: &[(&[u8], &[u8])]) -> io::Result<()> {
+        DbXxx::bulk_put(self, pairs)
     }
     fn clone_box(&self) -> Box<dyn DynMap> {
         Box::new(self.clone())
@@ -131,6 +135,8 @@ pub const L_DROP_DB: u8 = 12;
 pub const L_KEEP_ITER: u8 = 13;
 pub const L_ISEMPTY: u8 = 14;
 pub const L_FILL: u8 = 15;
+/// bulk_put of every key of the map (value index = letter.val rotated by the key index)
+pub const L_BULK_PUT: u8 = 17;
 
 pub const H_FIRST: u8 = 0;
 pub const H_CLONE: u8 = 1;
@@ -237,6 +243,7 @@ impl BCfg {
             L_DROP_DB => "drop the database handle (map handles stay)".into(),
             L_KEEP_ITER => format!("start an iterator on map {}, take one item, keep it alive", m.name),
             L_FILL => format!("read_fill_buffer() {}", via(l.handle)),
+            L_BULK_PUT => format!("bulk_put of all {} keys (value sizes rotated from #{}) {}", m.keys.len(), l.val, via(l.handle)),
             40 => "flush() [map m] with its first write refused by the operating system (ENOSPC), then the condition is lifted".to_string(),
             _ => format!("letter {:?}", l),
         }
@@ -245,7 +252,7 @@ impl BCfg {
         matches!(l.kind, L_FLUSH | L_SYNC_ALL | L_SYNC_DATA | L_DB_SYNC_ALL | L_DB_SYNC_DATA)
     }
     pub fn is_update(l: &Letter) -> bool {
-        matches!(l.kind, L_PUT | L_DEL)
+        matches!(l.kind, L_PUT | L_DEL | L_BULK_PUT)
     }
 }
 
@@ -455,6 +462,20 @@ impl BState {
                     return bad(format!("{} {}", cfg.label(l), r.failed().unwrap_or_default()));
                 }
                 self.models[mi].insert(key, val);
+                self.updates_since_reopen += 1;
+            }
+            L_BULK_PUT => {
+                let keys = cfg.maps[mi].keys.clone();
+                let nv = cfg.val_lens.len() as u8;
+                let vals: Vec<Vec<u8>> = (0..keys.len()).map(|i| cfg.value(l.map, i as u8, (l.val + i as u8) % nv)).collect();
+                let pairs: Vec<(&[u8], &[u8])> = keys.iter().zip(vals.iter()).map(|(k, v)| (&k[..], &v[..])).collect();
+                let r = guard(|| h.bulk_put(&pairs));
+                if r != Out::Ok(()) {
+                    return bad(format!("{} {}", cfg.label(l), r.failed().unwrap_or_default()));
+                }
+                for (k, v) in keys.into_iter().zip(vals.into_iter()) {
+                    self.models[mi].insert(k, v);
+                }
                 self.updates_since_reopen += 1;
             }
             L_DEL => {
@@ -1066,8 +1087,8 @@ pub fn c01_live(ctx: &mut Ctx) {
     let cfg2 = BCfg {
         prop: "C01".into(),
         maps: vec![std_map(KtId::Bytes, 8, 2, 7, seed, "m")],
-        val_lens: if thorough { vec![5000, 140_000, 300_000] } else { vec![5000, 140_000] },
-        letters: letters_updates_reads(0, 2, if thorough { 3 } else { 2 }, &[H_FIRST, H_CLONE], true),
+        val_lens: if thorough { vec![5000, 140_000, 300_000, 2_100_000] } else { vec![5000, 140_000, 2_100_000] },
+        letters: letters_updates_reads(0, 2, if thorough { 4 } else { 3 }, &[H_FIRST, H_CLONE], true),
         depth: 3,
         flags: F_DECODE_END,
         seed,
